@@ -251,6 +251,8 @@ class TapeRecorder(object):
         """
         _logger.info('Disabling recording')
         self.recording_enabled = False
+        # A recording in flight would miss every interception from here on, nothing partial is kept
+        self.discard_recording()
 
     @property
     def in_recording_mode(self):
